@@ -44,10 +44,12 @@ def corpus():
 def gen_exhaustive(tier, seed):
     out = B.word_cases(ALPHA, 4 if tier == 'quick' else 5)
     out += B.foreign_cases(maxlen=3 if tier == 'quick' else 4, puts='un')
+    # unusual argument VALUES (None, 0, False, 0.0, '', (), b'', frozenset()) in every producer kind
+    out += B.value_cases(8) + (B.value_cases(100) if tier != 'quick' else [])
     return out
 
 
-PROFILE = dict(p_fail=0.35, p_foreign=0.03, p_wait=0.10, p_settle=0.8, max_subs=8, waits='WWwwBb')
+PROFILE = dict(p_fail=0.35, p_foreign=0.03, p_wait=0.10, p_settle=0.8, max_subs=8, waits='WWwwBb', p_vals=0.15)
 
 
 def gen_random(tier, seed):
